@@ -92,6 +92,22 @@ def sym_parts(n, ascii_only=False, alphabet=None):
         return [('sym', 'b%d' % i, cons) for i in range(n)]
     return f
 
+def mixed_parts(shape, small=False):
+    """shape: string over {'a': one ASCII byte, '2': a 2-byte character, '3': a 3-byte character}"""
+    import z3 as _z
+    def f():
+        parts = []; i = 0
+        for ch in shape:
+            if ch == 'a':
+                parts.append(('sym', 'b%d' % i, S.in_set(list(b'a1_"#$ .(\\\n')) if small else S.ASCII)); i += 1
+            elif ch == '2':
+                parts.append(('sym', 'b%d' % i, lambda b: _z.And(_z.UGE(b, 0xC2), _z.ULE(b, 0xDF)))); parts.append(('sym', 'b%d' % (i + 1), lambda b: _z.And(_z.UGE(b, 0x80), _z.ULE(b, 0xBF)))); i += 2
+            else:
+                parts.append(('sym', 'b%d' % i, lambda b: _z.And(_z.UGE(b, 0xE1), _z.ULE(b, 0xEC)))); parts.append(('sym', 'b%d' % (i + 1), lambda b: _z.And(_z.UGE(b, 0x80), _z.ULE(b, 0xBF))))
+                parts.append(('sym', 'b%d' % (i + 2), lambda b: _z.And(_z.UGE(b, 0x80), _z.ULE(b, 0xBF)))); i += 3
+        return parts
+    return f
+
 def prefix_parts(prefix, add_sym):
     def f():
         return [prefix] + ([('sym', 'b0', S.ASCII)] if add_sym else [])
@@ -103,7 +119,8 @@ def run(tier, seed):
                     'render_parse_error', 'render_token', 'join_strings', 'CharIndices::next / str slicing (models with char-boundary panics)'}
     sjobs = []
     if tier == 'quick':
-        sjobs = [make_job('bytes-1', sym_parts(1)), make_job('bytes-2', sym_parts(2)), make_job('punct-3', sym_parts(3, alphabet=PUNCT))]
+        sjobs = [make_job('bytes-1', sym_parts(1)), make_job('bytes-2', sym_parts(2)), make_job('punct-3', sym_parts(3, alphabet=PUNCT)),
+                 make_job('ascii-mb2', mixed_parts('a2')), make_job('mb2-ascii', mixed_parts('2a')), make_job('a-mb3-a', mixed_parts('a3a', True)), make_job('aa-mb2-a', mixed_parts('aa2a', True))]
         nprefix = 160
     else:
         sjobs = [make_job('bytes-1', sym_parts(1)), make_job('bytes-2', sym_parts(2)), make_job('bytes-3', sym_parts(3)), make_job('punct-4', sym_parts(4, alphabet=PUNCT))]
@@ -124,7 +141,7 @@ def run(tier, seed):
     for i, s in enumerate([b'x := "abc', b'x := "a\\', b'x := "a\\x', b'x := "a\\x4', b'x := $"a${', b'x := $"a${b', b'x := $"a$', b'x := $', b'f(', b'[1, ', b'{"a": ', b'fn f(', b'if true {', b'x := 1 +', b'# c', b'x := 99999999999999999999', b'x .', b'x ->', b'x[1:', b'&', b'a |', b'!']):
         pjobs.append(make_job('unterminated-%d' % i, prefix_parts(s, True)))
         pjobs.append(make_job('unterminated-%d-exact' % i, prefix_parts(s, False)))
-    c.bounds = {'symbolic_inputs': 'all valid-UTF-8 inputs of <= 2 bytes and all strings of 3 bytes over a 31-character punctuation alphabet (quick); <= 3 bytes UTF-8 and 4 bytes punctuation (thorough)',
+    c.bounds = {'symbolic_inputs': 'all valid-UTF-8 inputs of <= 2 bytes, all strings of 3 bytes over a 31-character punctuation alphabet, an ASCII byte before / after any 2-byte character, 1-2 bytes of an 11-character alphabet around any 2- / 3-byte character (quick); <= 3 bytes UTF-8 and 4 bytes punctuation (thorough)',
                 'truncations': '%d (script, offset) pairs sampled from the %d repository test scripts (VERIF_SEED), each followed by one symbolic ASCII byte; 22 unterminated constructs' % (nprefix, len(tests))}
     c.outside = ['inputs longer than the stated sizes that are not such truncations', 'files that are not valid UTF-8 (only the read-error arm exists; the error value is opaque)', 'token-level mutations (not built)']
     c.run_jobs('symbolic-bytes', sjobs, par_jobs=len(sjobs), par_paths=max(2, 16 // len(sjobs)), timeout=3000)
